@@ -101,11 +101,14 @@ Inductive obs :=
 | ODeadLetter (sys : bool) (m : msg)              (* ghost: the guard published a dead-letter event for this message *)
 | ODropped (m : msg).                             (* ghost: undeliverable after the system stopped *)
 
+Inductive mbox := MbActor (a : aid) | MbRoot | MbDead.
+
 Inductive recov := RecFail | RecLog | RecKilled (who : rref).
 
 Inductive instr :=
 (* ---- yielding instructions: each waits for the matching event ---- *)
 | IEnq (sys : bool) (to : rref) (sender : rref) (m : msg)
+| IEnqR (sys : bool) (to : mbox) (sender : rref) (m : msg)        (* a tell whose target mailbox has been looked up (findMailbox runs before Enqueue) *)
 | IEnqMb (to : aid) (e : envelope)
 | IEnqDone
 | IEnqAny (sys : bool) (tos : list rref) (sender : rref) (m : msg)
@@ -128,7 +131,8 @@ Inductive instr :=
 | IObs (o : obs)
 | IEndHandler.
 
-Inductive cons := C0 | C1 | C2 | C3 | CH (e : envelope) | CBusy.
+Inductive cons := C0 | C1 | C2 | C3 | CH (e : envelope)
+  | CBusy (mode : N).   (* in a handler; [mode] = the behaviour HandleEnvelop peeked from the stack when it started *)
 
 Record actor := {
   a_path : path; a_gen : N; a_parent : option aid; a_spec : spec;
@@ -260,7 +264,6 @@ Definition ref_eq (s : state) (r1 r2 : rref) : bool :=
 
 (** System.findMailbox: where an envelope addressed through [r] lands.  The cache of a context's ref object
     is filled on the first registry hit and never changes afterwards. *)
-Inductive mbox := MbActor (a : aid) | MbRoot | MbDead.
 
 Definition resolve (s : state) (r : rref) : mbox * state :=
   match r with
@@ -498,7 +501,7 @@ Definition exec1 (s : state) (t : tid) (held : list aid) (i : instr) : state * l
             end
         | Some _ =>
         let (pre, panics) := take_until_panic acts in
-        let s1 := add_obs s (OSeen self (a_inst x) (mode_top x) m) in
+        let s1 := add_obs s (OSeen self (a_inst x) (match a_cons x with CBusy md => md | _ => mode_top x end) m) in
         (s1, map IAct pre ++
              if panics then
                match r with
@@ -602,7 +605,7 @@ Definition exec1 (s : state) (t : tid) (held : list aid) (i : instr) : state * l
 
 Definition yielding (i : instr) : bool :=
   match i with
-  | IEnq _ _ _ _ | IEnqMb _ _ | IEnqDone | IEnqAny _ _ _ _ | ISupPause _ _ (_ :: _) _ | IPauseSt | IResume1 | IResume2 => true
+  | IEnqR _ _ _ _ | IEnqMb _ _ | IEnqDone | IEnqAny _ _ _ _ | ISupPause _ _ (_ :: _) _ | IPauseSt | IResume1 | IResume2 => true
   | _ => false
   end.
 
@@ -616,6 +619,10 @@ Fixpoint run_atomic (fuel : nat) (s : state) (t : tid) : state :=
   | S f =>
       match pend_of s t with
       | [] => s
+      | IEnq sys to sender m :: rest =>
+          (* Context.tell: findMailbox runs now, the queue insertion is the next scheduling point *)
+          let (mb, s1) := resolve s to in
+          set_pend s1 t (IEnqR sys mb sender m :: rest)
       | i :: rest =>
           if yielding i then s
           else
@@ -758,7 +765,7 @@ Definition step (s : state) (ev : event) : state :=
       | Some x =>
           match a_cons x with
           | CH e =>
-              let x0 := set_mb x (a_sq x) (a_uq x) (a_paused x) CBusy (a_cur x) in
+              let x0 := set_mb x (a_sq x) (a_uq x) (a_paused x) (CBusy (mode_top x)) (a_cur x) in
               let (s1, ins) := dispatch (set_actor s a x0) a x0 e in
               run_atomic FUEL (set_pend s1 (TA a) ins) (TA a)
           | _ => set_err s
@@ -768,9 +775,8 @@ Definition step (s : state) (ev : event) : state :=
   | EvStart i => run_atomic FUEL s (TX i)
   | EvPush t choice =>
       match pend_of s t with
-      | IEnq sys to sender m :: rest =>
-          let (mb, s1) := resolve s to in
-          let (s2, _) := deliver s1 mb {| e_sys := sys; e_sender := sender; e_msg := m |} in
+      | IEnqR sys mb sender m :: rest =>
+          let (s2, _) := deliver s mb {| e_sys := sys; e_sender := sender; e_msg := m |} in
           set_pend s2 t rest
       | IEnqMb a e :: rest => set_pend (push_mb s a e) t rest
       | ISupPause c d rem done :: rest =>
@@ -824,7 +830,7 @@ Definition run_events (evs : list event) (s : state) : state := fold_left step e
 (** where does the thread's pending enqueue land (for the lock-step comparison) *)
 Definition push_target (s : state) (t : tid) (choice : nat) : option (mbox * bool) :=
   match pend_of s t with
-  | IEnq sys to _ _ :: _ => Some (fst (resolve s to), sys)
+  | IEnqR sys mb _ _ :: _ => Some (mb, sys)
   | IEnqMb a e :: _ => Some (MbActor a, e_sys e)
   | IEnqAny sys tos _ _ :: _ => match nth_error tos choice with Some to => Some (fst (resolve s to), sys) | None => None end
   | ISupPause _ _ rem _ :: _ => match nth_error rem choice with Some to => Some (fst (resolve s to), true) | None => None end
